@@ -632,8 +632,16 @@ func (ex *explorer) runPath(sv *solver, prefix []int32, funcs, intr, stubs map[s
 	if cfg.DumpDir != "" {
 		sv.log = &strings.Builder{}
 	}
+	// everything a path asserts lives in scopes above this level; whatever way the path ends (also by an executor error
+	// raised between a push and its pop, e.g. while a failing assertion's model was being read), ALL of them are closed,
+	// so that nothing leaks into the next path of this worker
+	base := sv.depth
 	sv.send("(push 1)")
-	defer sv.send("(pop 1)")
+	defer func() {
+		for sv.depth > base {
+			sv.send("(pop 1)")
+		}
+	}()
 	i := &interpreter{
 		prog:    cfg.Prog,
 		globals: make(map[*ssa.Global]*value),
